@@ -429,15 +429,14 @@ def run(ctx):
         len(traces), st['distinct'], ', '.join('%s x%d' % kv for kv in sorted(cnt.items())), len(accepted), drift))
     # binding self-test: a corrupted duration / outcome must be rejected by TLC
     good = [t for t in traces if clauses[t['id']] == 'ok' and t['obs']['outcome'] == 'TIMEOUT' and t['obs']['elapsed'] >= 1]
-    if not good:
-        raise tlc.TLCError('self-test: no TIMEOUT trace in the corpus')
     import copy
-    a = copy.deepcopy(good[0]); a['id'] = 900001; a['obs']['elapsed'] -= 1
-    b = copy.deepcopy(good[0]); b['id'] = 900002; b['obs']['elapsed'] += 2
-    c2, acc2, _ = validate(ctx, [a, b], tag='selftest')
-    if c2[900001] == 'ok' or c2[900002] == 'ok' or acc2:
-        raise tlc.TLCError('self-test: corrupted durations accepted: %s %s' % (c2, acc2))
-    ctx.note('binding self-test: early TIMEOUT -> %s, late return -> %s' % (c2[900001], c2[900002]))
+    if common.selftest_possible(ctx, good, 'a TIMEOUT outcome'):
+        a = copy.deepcopy(good[0]); a['id'] = 900001; a['obs']['elapsed'] -= 1
+        b = copy.deepcopy(good[0]); b['id'] = 900002; b['obs']['elapsed'] += 2
+        c2, acc2, _ = validate(ctx, [a, b], tag='selftest')
+        if c2[900001] == 'ok' or c2[900002] == 'ok' or acc2:
+            raise tlc.TLCError('self-test: corrupted durations accepted: %s %s' % (c2, acc2))
+        ctx.note('binding self-test: early TIMEOUT -> %s, late return -> %s' % (c2[900001], c2[900002]))
     ctx.failures = [f for f in ctx.failures if f.clause.startswith('C05:')]
     status, nviol, nknown = common.conclude(ctx)
     evidence.write('C05', ctx.tier, ctx.seed, 'model_checking', {
